@@ -289,12 +289,15 @@ func generate(n int) []tcase {
 			continue
 		}
 		c.Input, _ = json.Marshal(t)
+		c.InputText = string(vb)
 		if sideRe.MatchString(p) {
 			ins := []any{}
+			c.InputsText = []string{}
 			for k := g.r.Intn(3); k > 0; k-- {
 				ib, _ := json.Marshal(g.value(1))
 				it, _ := jqrun.ParseJSONText(string(ib))
 				ins = append(ins, it)
+				c.InputsText = append(c.InputsText, string(ib))
 			}
 			c.Inputs, _ = json.Marshal(ins)
 		}
